@@ -1026,6 +1026,8 @@ class Trait:
             f.add("recv:" + m.recv)
             if getattr(m.ret, "self_return", False):
                 f.add("self-return")
+            if getattr(m, "doc", None):
+                f.add("doc-text-mentions-attribute-names")
             if getattr(m.ret, "nobound", False):
                 f.add("assoc-without-lifetime-bound" + ("-in-result" if isinstance(m.ret, RResChild) else ""))
             if getattr(m.ret, "static_return", False):
@@ -1160,6 +1162,18 @@ def gen_trait(rng, name, prefix, max_methods=5, allow_child=True, tindex=0):
                 x.path = rng.choice(["core::option::", "::std::option::", "std::option::"])
             elif isinstance(x, (ARes, RRes, RIntRes)) and rng.random() < 0.3:
                 x.path = rng.choice(["core::result::", "::std::result::", "std::result::"])
+    # documentation and inert attributes whose TEXT mentions the generator's own attribute names:
+    # what a method is must not depend on how it is described
+    for m in methods:
+        if rng.random() < 0.2:
+            m.doc = rng.choice([
+                "/// Unlike a `#[skip_func]` method this one has a vtable slot.",
+                "/// Not `vtbl_only`: callable from both sides.",
+                "/// See also: int_result, no_int_result, wrap_with_obj(Leaf), custom_impl.",
+                "#[doc = \"skip_func vtbl_only no_int_result\"]",
+                "#[deprecated(note = \"was skip_func before 0.2; prefer the vtbl_only variant\")]",
+                "#[allow(deprecated, clippy::skip_func_like_name)]",
+            ])
     t = Trait(name, methods, int_result)
     if supers and any(getattr(m.ret, "borrowed", False) and getattr(m.ret, "wrapped", False) for m in methods):
         # the wrapper keeps borrowed wrapped returns in a Cell inside the container, which is never
